@@ -150,6 +150,32 @@ def _conc_corruptions(work, failures):
     return 2
 
 
+def _hammer_corruptions(work, failures):
+    """the summary events of drive_hammer: a clean run of every kind is accepted, one changed field is rejected"""
+    kinds = [("chan", {"bound": -1}, "C04"), ("ping", {}, "C03"), ("exec", {}, "C10"), ("wakeup", {}, "C11"), ("pingdrop", {}, "C03"),
+             ("chandrop", {}, "C04")]
+    sp = os.path.join(work, "sth_scn.ndjson")
+    tr = os.path.join(work, "sth_trace.ndjson")
+    with open(sp, "w") as f:
+        for k, extra, _ in kinds:
+            f.write(json.dumps(dict({"id": "st_" + k, "kind": k, "rounds": 2000}, **extra)) + "\n")
+    check.sh([check.BIN + "/drive_hammer", sp, tr], timeout=300)
+    base = [json.loads(l) for l in open(tr)]
+    clean = _verdict("ChanHammerTrace", base, work, "sth_clean")
+    if clean:
+        failures.append("clean hammer trace is flagged: %s" % sorted(clean))
+    n = 1
+    for (k, _, prop), e in zip(kinds, base):
+        bad = dict(e, stranded_round=7)
+        got = _verdict("ChanHammerTrace", [bad], work, "sth_" + k)
+        n += 1
+        if not any(p == prop for p, _ in got):
+            failures.append("hammer summary of kind %s with a stranded round is not flagged for %s" % (k, prop))
+        else:
+            print("  corrupted trace %-34s flagged: %s" % ("hammer_%s_stranded" % k, sorted(got)[:2]))
+    return n
+
+
 def main():
     work = check.ROOT + "/work/selftest_%d" % os.getpid()
     shutil.rmtree(work, ignore_errors=True)
@@ -163,6 +189,8 @@ def main():
         n += _core_corruptions(work, failures)
         print("[selftest] corrupted concurrent traces")
         n += _conc_corruptions(work, failures)
+        print("[selftest] corrupted hammer summaries")
+        n += _hammer_corruptions(work, failures)
         import importlib
         for name in ("engine_transient", "engine_signals", "engine_token", "engine_timeout", "engine_asyncio"):
             if not os.path.exists("%s/tools/%s.py" % (check.ROOT, name)):
